@@ -193,5 +193,5 @@ func c19(run *ev.Run) {
 	}}
 	acts := burnAlphabet(w, min)
 	run.Rule = "BFS over all sequences of bridge burns (2 burners + 1 poor burner, target addresses {A, B, empty}, values {min-1, min, min+1, 0, above balance}, malformed payload, with fee) up to the depth bound; oracle per transition: success => burner -(value+fee), bridge wallet +value, burn nonce of exactly the target address +1, every other bridge user node and account unchanged; below-minimum / no-address / failed / rejected => no ledger change beyond fee"
-	explore(run, w, acts, [][]chainsim.Action{{poor}}, run.Pick(4, 5), true, 50, 780, burnMonitor)
+	explore(run, w, acts, [][]chainsim.Action{{poor}}, run.Pick(4, 6), true, 50, 780, burnMonitor)
 }
